@@ -136,6 +136,10 @@ class Run:
         pend_fails = []
         with open(outp, errors="replace") as f:
             for line in f:
+                if line.startswith('"UNIV '):
+                    res["univ_file"] = os.path.join(self.work, name + ".univ.json")
+                    open(res["univ_file"], "w").write(json.loads(line)[5:])
+                    continue
                 if line.startswith('"CASE '):
                     if cases is not None:
                         try:
@@ -230,7 +234,7 @@ class Run:
                             ci = (s, c)
                         else:
                             break
-                    fails.append(dict(chunk=chunks[i], line=ln, case=ci[1], rel=ln - ci[0], verdict=verdict))
+                    fails.append(dict(chunk=chunks[i], line=ln, case=ci[1], rel=ln - ci[0], verdict=verdict, reset_line=ci[0]))
         ncases = sum(len(m["starts"]) for m in meta)
         nev = sum(m["events"] for m in meta)
         return fails, ncases, nev
@@ -245,6 +249,13 @@ class Run:
         if p.returncode != 0:
             self.harness_died(label, hmodule, cases_file, p, tmodule, cfg_tmpl, replay_args, env)
             return 0
+        m = re.search(r"STATS (\{.*\})", p.stderr or "")
+        if m:
+            st = json.loads(m.group(1))
+            self.cov["prefiltered_equal"] += st.get("equal", 0)
+            self.cov["evaluations"] += st.get("compared", 0)
+            self.cov.setdefault("requests_on_real_code", 0)
+            self.cov["requests_on_real_code"] += st.get("compared", 0)
         fails, ncases, nev = self.validate(tmodule, cfg_tmpl, trace, chunk_events, label=label)
         self.account(trace, ncases, sample_n)
         self.judge(label, hmodule, fails, trace, tmodule, cfg_tmpl, replay_args, env)
@@ -284,7 +295,7 @@ class Run:
         """Handle events rejected by layer P: known finding or (after reproduction) violation."""
         by_case = {}
         for f in fails:
-            by_case.setdefault((f["chunk"], f["case"]), []).append(f)
+            by_case.setdefault((f["chunk"], f["reset_line"]), []).append(f)
         n_repro = 0
         for (chunk, case), fl in sorted(by_case.items(), key=lambda kv: kv[0][1]):
             verdicts = sorted(set(f["verdict"] for f in fl))
@@ -298,7 +309,7 @@ class Run:
             if n_repro >= 4:
                 # enough reproduced examples; remaining rejections are still violations of the same run
                 continue
-            inp = case_input(chunk, case)
+            inp = json.loads(line_of(chunk, case)).get("input")
             n_repro += 1
             ok, detail = self.reproduce(label, hmodule, inp, tmodule, cfg_tmpl, replay_args, env)
             if ok:
